@@ -77,13 +77,14 @@ impl<'a> GeneratorState<'a> {
                 match right {
                     ExprType::Immediate(r) => {
                         match op {
-                            Operation::Add(_) => return Ok(ExprType::Immediate(l + r)),
-                            Operation::Sub(_) => return Ok(ExprType::Immediate(l - r)),
+                            // Constant folding: a result that doesn't fit (or a division by zero) is an error
+                            Operation::Add(_) => return l.checked_add(*r).map(ExprType::Immediate).ok_or_else(|| self.compiler_state.syntax_error("Constant expression overflow", pos)),
+                            Operation::Sub(_) => return l.checked_sub(*r).map(ExprType::Immediate).ok_or_else(|| self.compiler_state.syntax_error("Constant expression overflow", pos)),
                             Operation::And(_) => return Ok(ExprType::Immediate(l & r)),
                             Operation::Or(_) => return Ok(ExprType::Immediate(l | r)),
                             Operation::Xor(_) => return Ok(ExprType::Immediate(l ^ r)),
-                            Operation::Mul(_) => return Ok(ExprType::Immediate(l * r)),
-                            Operation::Div(_) => return Ok(ExprType::Immediate(l / r)),
+                            Operation::Mul(_) => return l.checked_mul(*r).map(ExprType::Immediate).ok_or_else(|| self.compiler_state.syntax_error("Constant expression overflow", pos)),
+                            Operation::Div(_) => return l.checked_div(*r).map(ExprType::Immediate).ok_or_else(|| self.compiler_state.syntax_error("Division by zero or constant expression overflow", pos)),
                             _ => { return Err(self.compiler_state.compiler_error("Arithmetics is partially implemented", pos)); },
                         } 
                     },
@@ -326,8 +327,9 @@ impl<'a> GeneratorState<'a> {
                 match right {
                     ExprType::Immediate(r) => {
                         match op {
-                            Operation::Brs(_) => return Ok(ExprType::Immediate(l >> r)),
-                            Operation::Bls(_) => return Ok(ExprType::Immediate(l << r)),
+                            // Constant folding: a shift count outside 0..31 or a result that doesn't fit is an error
+                            Operation::Brs(_) => return u32::try_from(*r).ok().and_then(|s| l.checked_shr(s)).map(ExprType::Immediate).ok_or_else(|| self.compiler_state.syntax_error("Constant expression overflow", pos)),
+                            Operation::Bls(_) => return u32::try_from(*r).ok().filter(|s| *s < 32).and_then(|s| i32::try_from((*l as i64) << s).ok()).map(ExprType::Immediate).ok_or_else(|| self.compiler_state.syntax_error("Constant expression overflow", pos)),
                             _ => unreachable!(),
                         } 
                     },
